@@ -74,7 +74,7 @@ func c06Prog(sc c06Scen) *LazyProgram {
 
 func c06Names(quick bool) []string {
 	syms := []string{"a", "Z", "9", "-", "_", "/", "\\", ".", " ", "*", "?", "[", "#", "é", "世", "\x00", "\n"}
-	names := []string{"CON", "com1", "LPT³", "nul", "Test/sub/deep", strings.Repeat("n", 200), "a/../b", "..", "x]", "日本語/テスト"}
+	names := []string{"CON", "com1", "LPT³", "nul", "Test/sub/deep", strings.Repeat("n", 200), strings.Repeat("n", 228), strings.Repeat("m", 229), strings.Repeat("世", 85), "a/../b", "..", "x]", "日本語/テスト"}
 	for _, a := range syms {
 		names = append(names, a)
 		for _, b := range syms {
@@ -105,6 +105,9 @@ func c06RunAs(c *Ctx, sc c06Scen, seed uint64, prop string) {
 	desc := fmt.Sprintf("name=%q chunks=%v size=%s kind=%s", trunc(sc.name, 30), chunkDesc(sc.chunks), sc.size, sc.kind)
 	replay := map[string]any{"name": sc.name, "chunks": chunkDesc(sc.chunks), "size": sc.size, "kind": sc.kind.String(), "seed": seed}
 	viol := func(clause, detail string) {
+		if n := len(rapid.VerifSafeFilename(sc.name)); n > 228 && n <= 255 {
+			clause += " name=sanitized-form-of-229-to-255-bytes" // fits in a file name, but not together with "-<time>-<pid>.fail"
+		}
 		c.Violate(Violation{Sig: prop + " " + clause, Detail: detail + "\nscenario: " + desc, Replay: replay})
 	}
 	cfg := Config{Checks: 3 + sc.passFirst, Seed: seed, ShrinkMS: 40, Name: sc.name}
